@@ -55,14 +55,24 @@ def decorate_answer(answer, request):
     answer.header.end_to_end = request.header.end_to_end
 
     if request.has_avp("session_id_avp"):
-        answer.session_id_avp.data = request.session_id_avp.data
+        if answer.has_avp("session_id_avp"):
+            answer.session_id_avp.data = request.session_id_avp.data
+        else:
+            #: The route function has built an answer of its own without a
+            #: Session-Id: it goes in right after the header (RFC 6733, 8.8).
+            session_id = SessionIdAVP(request.session_id_avp.data)
+            answer.avps = [session_id] + answer.avps
         answer.refresh()
 
-    if (is_3xxx_failure(answer) or
-        is_4xxx_failure(answer) or
-        is_5xxx_failure(answer)):
+    #: The error flag follows the Result-Code, whether the route function has
+    #: set it already or not.
+    if answer.has_avp("result_code_avp"):
+        is_error = bool(is_3xxx_failure(answer) or
+                        is_4xxx_failure(answer) or
+                        is_5xxx_failure(answer))
 
-        answer.header.set_error_bit(True)
+        if is_error != answer.header.is_error():
+            answer.header.set_error_bit(is_error)
 
     if answer.has_avp("experimental_result_avp"):
         if answer.has_avp("result_code_avp"):
